@@ -4,11 +4,12 @@ set -u
 cd /verif
 . ./env.sh
 id=$(echo "$1" | tr 'A-Z' 'a-z')
-export VERIF_TIER=${2:-${VERIF_TIER:-quick}}
+if [ "$id" != replay ]; then export VERIF_TIER=${2:-${VERIF_TIER:-quick}}; fi
 mkdir -p .build
 python3 tools/genoverlay.py .build/overlay || { echo "overlay generation failed"; exit 2; }
 if ! go build -overlay .build/overlay/overlay.json -o .build/vcheck ./cmd/vcheck 2> .build/build.log; then
   cat .build/build.log
   echo "BUILD FAILED (check cannot run)"; exit 2
 fi
+if [ "$id" = replay ]; then exec .build/vcheck replay "$2"; fi
 exec .build/vcheck "$id"
